@@ -6,8 +6,10 @@ import (
 	"go/constant"
 	"go/types"
 	"hash/fnv"
+	"path/filepath"
 	"sort"
 	"strconv"
+	"strings"
 
 	"cvsslint/internal/facts"
 	"cvsslint/internal/ir"
@@ -325,4 +327,49 @@ func tableInPkgs(t *facts.Table, rels ...string) bool {
 		}
 	}
 	return false
+}
+
+// buildCoverage: a static check sees only what was parsed. Every non-test Go file of the six library packages
+// must be part of the configuration analysed (no file left out by a GOOS/GOARCH/tag constraint), and the packages
+// must not reach outside the analysed language (cgo, assembly, unsafe, reflection, go:linkname). Otherwise the verdict of any
+// property would silently be about a different program than the one built elsewhere: reported as UNDECIDED.
+func (e *Env) buildCoverage() {
+	c := e.C
+	for _, rel := range load.LibPkgs {
+		pk := e.P.Lib(rel)
+		if pk == nil {
+			continue
+		}
+		ok := true
+		for _, f := range pk.IgnoredFiles {
+			if strings.HasSuffix(f, "_test.go") || !strings.HasSuffix(f, ".go") {
+				continue
+			}
+			ok = false
+			c.Undecided("build-coverage", rel+"/"+filepath.Base(f), "", "this file is compiled only under another build configuration (GOOS/GOARCH/build tag) and is not part of the program analysed")
+		}
+		for _, f := range pk.OtherFiles {
+			ok = false
+			c.Undecided("build-coverage", rel+"/"+filepath.Base(f), "", "non-Go source file (assembly / C) in a library package")
+		}
+		for path := range pk.Imports {
+			if path == "unsafe" || path == "C" || path == "reflect" || path == "plugin" {
+				ok = false
+				c.Undecided("build-coverage", rel+" imports "+path, "", "memory can be reached in ways the analysis does not model")
+			}
+		}
+		for _, f := range pk.Syntax {
+			for _, cg := range f.Comments {
+				for _, cm := range cg.List {
+					if strings.HasPrefix(cm.Text, "//go:linkname") {
+						ok = false
+						c.Undecided("build-coverage", rel+" "+e.P.Pos(cm.Pos()), e.P.Pos(cm.Pos()), "go:linkname binds a symbol outside the analysed program")
+					}
+				}
+			}
+		}
+		if ok {
+			c.Ok("build-coverage", rel, "", fmt.Sprintf("all %d non-test Go files of the package are part of the configuration analysed; no cgo, assembly, unsafe, reflect or go:linkname", len(pk.GoFiles)))
+		}
+	}
 }
